@@ -13,12 +13,32 @@ Record xt := mkX {
 }.
 Definition x0 := mkX 0 0 [] [] false.
 
-Fixpoint win_lookup (mask : N) (i : N) (w : bytes) (n : nat) (input : bytes) : bool :=
+Fixpoint win_lookup (mask : N) (w : bytes) (n : nat) (input : bytes) : bool :=
   match input with
   | [] => false
   | _ :: r =>
-    if N.testbit mask i && bytes_eqb (firstn n input) w then true
-    else win_lookup mask (i + 1) w n r
+    if N.odd mask && bytes_eqb (firstn n input) w then true
+    else win_lookup (N.div2 mask) w n r
+  end.
+
+(** byte strings travel as one hexadecimal numeral with a leading 1 nibble (cheap to parse) *)
+Fixpoint unpack_aux (fuel : nat) (n : N) (acc : bytes) : bytes :=
+  match fuel with
+  | O => acc
+  | S f => if n <=? 1 then acc
+           else unpack_aux f (N.shiftr n 8) (N.land n 255 :: acc)
+  end.
+Definition unpack1 (n : N) : bytes := unpack_aux (N.to_nat (N.size n)) n [].
+(** long strings come in chunks (deep numerals overflow the parser's stack) *)
+Definition unpack (l : list N) : bytes := concat (map unpack1 l).
+
+(** expected results travel the same way: a number below 255 is one byte, anything else is
+    255 followed by 8 big-endian bytes *)
+Fixpoint enc_nums (l : list Z) : bytes :=
+  match l with
+  | [] => []
+  | z :: r => let n := Z.to_N z in
+              if n <? 255 then n :: enc_nums r else 255 :: be_enc 8 n ++ enc_nums r
   end.
 
 Fixpoint assoc_b {A} (k : bytes) (l : list (bytes * A)) : option A :=
@@ -32,8 +52,8 @@ Definition max_size_of (chain : N) : N :=
 
 Definition run_case (c : N * N * bytes * xt) : list Z :=
   let '(d, p, input, x) := c in
-  let valid_pk := fun w => win_lookup (x_pk x) 0 w 33 input in
-  let valid_ed := fun w => win_lookup (x_ed x) 0 w 32 input in
+  let valid_pk := fun w => win_lookup (x_pk x) w 33 input in
+  let valid_ed := fun w => win_lookup (x_ed x) w 32 input in
   let addr_parse := fun s => assoc_b s (x_addrs x) in
   let json_sp := fun q => match assoc_b q (x_json x) with Some o => o | None => None end in
   match d with
@@ -52,8 +72,8 @@ Definition run_case (c : N * N * bytes * xt) : list Z :=
 (** the same cases on the models of the code before the repair *)
 Definition run_case_orig (c : N * N * bytes * xt) : list Z :=
   let '(d, p, input, x) := c in
-  let valid_pk := fun w => win_lookup (x_pk x) 0 w 33 input in
-  let valid_ed := fun w => win_lookup (x_ed x) 0 w 32 input in
+  let valid_pk := fun w => win_lookup (x_pk x) w 33 input in
+  let valid_ed := fun w => win_lookup (x_ed x) w 32 input in
   let addr_parse := fun s => assoc_b s (x_addrs x) in
   let json_sp := fun q => match assoc_b q (x_json x) with Some o => o | None => None end in
   match d with
@@ -68,3 +88,90 @@ Definition run_case_orig (c : N * N * bytes * xt) : list Z :=
   | 7 => canon_result CodecSlatepack.cbytes (helper false (fun _ => x_edv x) p input)
   | _ => [9%Z]
   end.
+
+(** compare inside Coq: [] when the model's result equals the implementation's (packed in
+    [expected]), otherwise 7 followed by the model's result *)
+Definition check_case (ce : (N * N * list N * xt) * list N) : list Z :=
+  let '((d, p, input, x), expected) := ce in
+  let m := run_case (d, p, unpack input, x) in
+  if bytes_eqb (enc_nums m) (unpack expected) then [] else 7%Z :: m.
+Definition check_case_orig (ce : (N * N * list N * xt) * list N) : list Z :=
+  let '((d, p, input, x), expected) := ce in
+  let m := run_case_orig (d, p, unpack input, x) in
+  if bytes_eqb (enc_nums m) (unpack expected) then [] else 7%Z :: m.
+Definition ub := unpack.
+
+(** ------------------------------------------------------------------ C08 *)
+Definition eqn (l : list Z) (e : list N) : bool := bytes_eqb (enc_nums l) (unpack e).
+Definition flag (i : Z) (b : bool) : list Z := if b then [] else [i].
+Definition all_true : bytes -> bool := fun _ => true.
+
+Definition coptn (o : option N) : list Z :=
+  match o with Some v => [1%Z; CodecSlate.cz v] | None => [0%Z] end.
+Definition coptraw (o : option bytes) : list Z :=
+  match o with Some b => 1%Z :: CodecSlate.craw b | None => [0%Z] end.
+Definition coptbytes (o : option bytes) : list Z :=
+  match o with Some b => 1%Z :: CodecSlate.cbytes b | None => [0%Z] end.
+
+(** layout of the harness's [fields_of_json] *)
+Definition canon_fields (j : jslate) : list Z :=
+  [CodecSlate.cz (j_ver j); CodecSlate.cz (j_bhv j)] ++ CodecSlate.craw (j_id j)
+  ++ [CodecSlate.cz (j_sta j)] ++ coptbytes (j_off j)
+  ++ coptn (j_num_parts j) ++ coptn (j_amt j) ++ coptn (j_fee j) ++ coptn (j_feat j) ++ coptn (j_ttl j)
+  ++ CodecSlate.cz (lenN (j_sigs j))
+     :: concat (map (fun g => CodecSlate.craw (j_xs g) ++ CodecSlate.craw (j_nonce g) ++ coptraw (j_part g))
+                    (j_sigs j))
+  ++ (match j_coms j with
+      | None => [0%Z]
+      | Some cs => 1%Z :: CodecSlate.cz (lenN cs)
+                   :: concat (map (fun c => coptn (j_f c) ++ CodecSlate.craw (j_c c) ++ coptbytes (j_p c)) cs)
+      end)
+  ++ (match j_proof j with
+      | None => [0%Z]
+      | Some p => 1%Z :: CodecSlate.craw (j_saddr p) ++ CodecSlate.craw (j_raddr p) ++ coptraw (j_rsig p)
+      end)
+  ++ coptn (j_feat_args j).
+
+Definition canon_kernel (sl : slate) : list Z :=
+  match sl_tx sl with
+  | None => []
+  | Some t => match tx_kernel t with
+              | KPlain => [0%Z; 0%Z]
+              | KHeightLocked l => [2%Z; CodecSlate.cz l]
+              | KNoRecentDuplicate r => [3%Z; CodecSlate.cz r]
+              end
+  end.
+
+(** V4 slate case: [] when the model agrees with the implementation on
+    1 the binary encoding (byte for byte), 2 its decoding, 3 the JSON field map,
+    4 the JSON decoding, 5 Slate<->V4, 6 the reconstructed kernel *)
+Definition check_v4 (c : slate4 * list N * list N * list N * list N * list N * list N) : list Z :=
+  let '(s, e_bin, e_bin_dec, e_fields, e_json_dec, e_conv, e_kernel) := c in
+  let bin := enc_v4bin s in
+  flag 1 (bytes_eqb bin (unpack e_bin))
+  ++ flag 2 (eqn (canon_result canon_v4 (run_rd (dec_v4bin all_true all_true true) bin)) e_bin_dec)
+  ++ flag 3 (eqn (canon_fields (to_fields s)) e_fields)
+  ++ flag 4 (eqn (canon_result canon_v4 (of_fields true all_true all_true all_true (to_fields s))) e_json_dec)
+  ++ flag 5 (eqn (canon_v4 (v4_of_slate (slate_of_v4 s))) e_conv)
+  ++ flag 6 (eqn (canon_kernel (slate_of_v4 s)) e_kernel).
+
+Definition ap_id : bytes -> option bytes := fun s => Some s.
+
+(** slatepack case: 1 binary encoding, 2 its decoding, 3 armor text, 4 armor decoding *)
+Definition check_sp (c : slatepack * list N * list N * list N * list N) : list Z :=
+  let '(sp, e_bin, e_bin_dec, e_armor, e_armor_dec) := c in
+  let bin := enc_slatepack_bin sp in
+  flag 1 (bytes_eqb bin (unpack e_bin))
+  ++ flag 2 (eqn (canon_result canon_sp (run_rd (dec_slatepack_bin ap_id true) bin)) e_bin_dec)
+  ++ flag 3 (bytes_eqb (armor_encode b58_encode_impl sha256d4_impl bin) (unpack e_armor))
+  ++ flag 4 (eqn (canon_result CodecSlatepack.cbytes
+                               (armor_decode b58_decode_impl sha256d4_impl
+                                             (armor_encode b58_encode_impl sha256d4_impl bin)))
+                 e_armor_dec).
+
+(** encrypted metadata case: 1 the plaintext handed to age, 2 what decryption returns *)
+Definition check_meta (c : encmeta * list N * list N * list N) : list Z :=
+  let '(m, payload, e_plain, e_dec) := c in
+  let plain := pre_encrypt m (unpack payload) in
+  flag 1 (bytes_eqb plain (unpack e_plain))
+  ++ flag 2 (eqn (canon_result canon_meta (post_decrypt ap_id true plain)) e_dec).
